@@ -50,8 +50,9 @@ LEVEL_TEXT = (
     "type, never a name (C01_kw_total, C01_kw_injective; counterexample C01_kw_glued_cex: `and`/`or` glued to the next token); every "
     "soft keyword becomes a token the production `name` accepts (C01_softkw_names); and, for context_check._not_assignable with its "
     "isinstance chain read from the source, by structural induction for ANY nesting: every assignment / augmented / del target "
-    "CPython's grammar allows passes check_contexts unless it contains an empty () / [] (C01_targets_partial; full statement "
-    "C01_targets for a source without the emptiness test; C01_targets_cex: `() = x`, `[] = x`, `del ()`), with the exact converse "
+    "CPython's rule allows — empty () / [] included — passes check_contexts (C01_targets_full, unconditional for the current source: "
+    "the emptiness test of _not_assignable was removed in /repo 7cb36ca; C01_targets is the same under the hypothesis 'no emptiness "
+    "test', C01_targets_partial / C01_targets_cex describe the old source and stay as the regression guard), with the exact converse "
     "under side conditions (C01_targets_iff_partial). Parser-table freshness: the LALR table is regenerated with PLY from the "
     "working-tree grammar in a scratch directory and compared (productions, action, goto) with the table xonsh loads unvalidated."
 )
@@ -1847,7 +1848,7 @@ def stream_targets(ctx, n, name="tie:targets"):
         "Constant markers, nested in Tuples / Lists / Starred up to depth 4, empty sequences included) × {assignment, augmented, del}: the real "
         "context_check._not_assignable answer (message or None) vs the Lean `notAssignable` over the translated chain, and CPython's own verdict "
         "(ast.parse of `<target> = x` / `<target> += x` / `del <target>`) vs the Lean `cpyValid`; every case where CPython accepts and xonsh "
-        "refuses must be an empty-sequence target (C01_targets_partial); non-trivial = nested target",
+        "refuses is a failure of the property (before /repo 7cb36ca: exactly the empty-sequence targets; now none, C01_targets_full); non-trivial = nested target",
     )
     common.setup_repo_imports()
     from xonsh.parsers.context_check import _not_assignable
@@ -2037,7 +2038,8 @@ def corner_items():
 
 
 def replay_known(ctx, pool):
-    """every open finding's witnesses must still fail, and be explained by the finding's own form"""
+    """open findings: the witnesses must still fail and be explained by the finding's own form; fixed findings: the witnesses must
+    pass (recurrence is a violation: a fixed key is never an excuse)"""
     items = []
     for f in ctx.known:
         for i, w in enumerate(f["witness"]["inputs"]):
@@ -2051,16 +2053,28 @@ def replay_known(ctx, pool):
             keys = set()
             for u in rec["units"]:
                 keys |= set(u["forms"] or [])
+                if u["forms"] is None:
+                    keys.add("<unexplained>")
             got.setdefault(rec["origin"], []).append((rec["source"], sorted(keys), rec["failure"]))
+    open_keys = {f["key"] for f in ctx.known if f.get("status") == "open"}
     for f in ctx.known:
         hits = got.get(f["key"], [])
         still = [h for h in hits if f["key"] in h[1]]
-        ctx.replayed(f["key"], bool(still), {"witnesses_failing": len(hits), "explained_by_this_form": len(still), "first": still[0][2] if still else None})
+        is_fixed = str(f.get("status", "")).startswith("fixed")
+        ctx.replayed(f["key"], bool(still), {"status": f.get("status"), "witnesses_failing": len(hits), "explained_by_this_form": len(still), "first": still[0][2] if still else None})
         if still:
+            # open: the finding is reproduced.  fixed: the repaired defect is back — its key is not open, so this is a VIOLATION
             ctx.count(f"known/{f['key']}")
-            ctx.spec_failure({"stream": "known-witness", "mode": f["witness"]["inputs"][0]["mode"], "unit": still[0][0]}, {"failure": still[0][2]}, f["what"], f["key"])
+            ctx.spec_failure({"stream": "known-witness", "mode": f["witness"]["inputs"][0]["mode"], "unit": still[0][0]}, {"failure": still[0][2]},
+                             ("RECURRENCE of the repaired defect (%s): " % f.get("status") if is_fixed else "") + f["what"], f["key"])
             _STORED[f["key"]] = _STORED.get(f["key"], 0) + 1
-        elif f.get("status") == "open":
+        elif is_fixed:
+            # a fixed witness must parse to CPython's tree; it may still touch OTHER open forms, nothing else
+            for h in hits:
+                if not set(h[1]) <= open_keys:
+                    ctx.spec_failure({"stream": "known-witness", "finding": f["key"], "unit": h[0]}, {"failure": h[2], "explained_by": h[1]},
+                                     f"the witness of the REPAIRED finding {f['key']} ({f.get('status')}) fails again", None)
+        else:
             ctx.lean_notes.append(f"open finding {f['key']}: its witnesses no longer fail the way the form describes ({hits[:1]})")
             if hits:
                 # fails, but differently: report under no key (a changed defect is a different defect)
@@ -2076,8 +2090,8 @@ def run(ctx):
     ]
     ctx.explanation = (
         "PARTIAL. Proved (Props/C01.lean over Gen/PyTokens.lean, regenerated from /repo and the interpreter every run): operator totality / "
-        "injectivity, keyword token types, soft keywords stay names, _not_assignable vs CPython's target rule for any nesting (partial + "
-        "counterexample for empty () / []). NOT proved, searched: the main clause, differentially against ast.parse in exec / eval / single mode, "
+        "injectivity, keyword token types, soft keywords stay names, _not_assignable vs CPython's target rule for any nesting (full "
+        "strength since the emptiness test was removed in /repo 7cb36ca). NOT proved, searched: the main clause, differentially against ast.parse in exec / eval / single mode, "
         "with the table xonsh loads and — when it differs from the grammar — with a freshly regenerated one. Each failure is cut down to minimal "
         "units; a unit counts as KNOWN only if a recorded syntactic form is present, the failure has that form's signature, and the form's cure "
         "(targeted edit or modelled wrong tree) makes the unit parse to CPython's tree; anything else is a new form."
@@ -2100,7 +2114,7 @@ def run(ctx):
     pool = Pool(fresh_dir, 20 if quick else 60)
     try:
         for nm, rule in [
-            ("known-witness", "the witnesses of every open known finding: must still fail and be explained by that finding's own form"),
+            ("known-witness", "the witnesses of every known finding: an OPEN one must still fail and be explained by that finding's own form; a FIXED one must parse to CPython's tree (it may touch other open forms only) — a repaired defect that comes back is a VIOLATION"),
             ("corners", f"{len(c01gen.CORNERS)} hand-written token-level corner cases (redirect look-alikes, numbers, string prefixes, PEP 701 f-strings, indentation / continuation, trailing commas, annotation and parameter positions, soft keywords, match, except*, with, decorators, every operator, targets, non-ASCII identifiers), each in every mode CPython accepts it in"),
             ("files", "(a) .py files of the interpreter's stdlib and /venv site-packages that CPython parses (decoded by their coding cookie): the whole file in exec mode; non-trivial = every file"),
             ("files/statement", "every top-level statement of those files re-parsed ALONE in exec mode, in single mode and (expression statements) in eval mode"),
